@@ -47,7 +47,9 @@ type c20Gen struct {
 	clock  int // virtual seconds elapsed
 	npub   int // acknowledged publications so far (index into "pub:n")
 	pubAt  []int
+	pubTopic []string // topic of publication n ("" when it carried a receiver restriction)
 	nsubs  map[int]int
+	gone   map[int]bool // sessions that have left (their later operations are not sent)
 }
 
 func (g *c20Gen) histTopic(t *rapid.T) string {
@@ -58,6 +60,18 @@ func (g *c20Gen) histTopic(t *rapid.T) string {
 
 func (g *c20Gen) ops(t *rapid.T) []Op {
 	s := uni(t, g.nsess, "s")
+	if g.gone == nil {
+		g.gone = map[int]bool{}
+	}
+	if g.gone[s] {
+		// prefer a session that is still there (keeps the publication index exact)
+		for i := 0; i < g.nsess; i++ {
+			if !g.gone[i] {
+				s = i
+				break
+			}
+		}
+	}
 	switch k := uni(t, 100, "k"); {
 	case k < 14:
 		h := pick(t, g.hist, "subhist")
@@ -66,6 +80,10 @@ func (g *c20Gen) ops(t *rapid.T) []Op {
 	case k < 20:
 		return []Op{{K: "unsubscribe", S: s, Ref: fmt.Sprintf("sub:-1:%d", uni(t, 3, "n"))}}
 	case k < 23:
+		if s == 0 {
+			return []Op{{K: "advance", Ns: 1}} // session 0 keeps the subscription ids the queries refer to
+		}
+		g.gone[s] = true
 		return []Op{{K: pick(t, []string{"goodbye", "drop"}, "leave"), S: s}}
 	case k < 62:
 		op := Op{K: "publish", S: s, Opts: []KV{{"acknowledge", VBool(true)}}, Args: genArgs(t, valOpts{}), Kw: genKw(t, valOpts{})}
@@ -83,16 +101,37 @@ func (g *c20Gen) ops(t *rapid.T) []Op {
 		if pct(t, 20, "exclme") {
 			op.Opts = append(op.Opts, KV{"exclude_me", VBool(false)})
 		}
+		if g.gone[s] {
+			return []Op{op} // nobody left to send it
+		}
 		g.pubAt = append(g.pubAt, g.clock)
+		if _, r1 := optGet(op.Opts, "exclude"); r1 {
+			g.pubTopic = append(g.pubTopic, "")
+		} else if _, r2 := optGet(op.Opts, "eligible"); r2 {
+			g.pubTopic = append(g.pubTopic, "")
+		} else {
+			g.pubTopic = append(g.pubTopic, op.URI)
+		}
 		g.npub++
 		g.clock++
 		return []Op{op, {K: "advance", Ns: 1e9}}
 	default:
 		// query
 		op := Op{K: "meta", S: s, URI: "wamp.subscription.get_events"}
+		var retained []int // publications probably retained by the queried history, oldest first
 		if pct(t, 85, "knownsub") {
 			// session 0 subscribed to every history topic first, in order
-			op.Args = []V{VRef(fmt.Sprintf("sub:0:%d", uni(t, len(g.hist), "hn")))}
+			hn := uni(t, len(g.hist), "hn")
+			op.Args = []V{VRef(fmt.Sprintf("sub:0:%d", hn))}
+			h := g.hist[hn]
+			for i, tp := range g.pubTopic {
+				if tp != "" && modelMatches(tp, h.Topic, policyClass(h.Match)) {
+					retained = append(retained, i)
+				}
+			}
+			if len(retained) > h.Limit {
+				retained = retained[len(retained)-h.Limit:]
+			}
 		} else {
 			op.Args = []V{VRef(fmt.Sprintf("sub:%d:%d", uni(t, g.nsess, "owner"), uni(t, 3, "n")))}
 		}
@@ -128,7 +167,10 @@ func (g *c20Gen) ops(t *rapid.T) []Op {
 		}
 		pubRef := func() V {
 			n := 0
-			if g.npub > 0 {
+			if len(retained) > 0 && pct(t, 92, "retainedpub") {
+				// a publication this history retains (bounds outside the store are grey)
+				n = pick(t, retained, "pret")
+			} else if g.npub > 0 {
 				n = g.npub - 1 - uni(t, min(g.npub, 5), "pback")
 			}
 			r := VRef(fmt.Sprintf("pub:%d", n))
@@ -136,14 +178,39 @@ func (g *c20Gen) ops(t *rapid.T) []Op {
 		}
 		// at most one lower and one upper publication bound (two on one side
 		// are outside the statement; counted when redirected)
-		if pct(t, 18, "lowerpub") {
+		// (bounds that name no retained publication are grey: mostly drawn when the store has entries)
+		boundPct := 22
+		if len(retained) == 0 {
+			boundPct = 3
+		}
+		if pct(t, boundPct, "lowerpub") {
 			op.Kw = append(op.Kw, KV{pick(t, []string{"from_publication", "after_publication"}, "lk"), pubRef()})
 		}
-		if pct(t, 18, "upperpub") {
+		if pct(t, boundPct, "upperpub") {
 			op.Kw = append(op.Kw, KV{pick(t, []string{"before_publication", "until_publication"}, "uk"), pubRef()})
 		}
-		if pct(t, 10, "topicf") {
-			op.Kw = append(op.Kw, KV{"topic", VStr(g.histTopic(t))})
+		if pct(t, 14, "topicf") {
+			if len(retained) > 0 && pct(t, 70, "retainedtopic") {
+				op.Kw = append(op.Kw, KV{"topic", VStr(g.pubTopic[pick(t, retained, "tret")])})
+			} else {
+				op.Kw = append(op.Kw, KV{"topic", VStr(g.histTopic(t))})
+			}
+		}
+		if len(retained) >= 2 && pct(t, 8, "crossfilter") {
+			// a publication bound together with a topic filter that rules the bounding
+			// publication itself out
+			op.Kw = nil
+			b := pick(t, retained, "xbound")
+			var others []string
+			for _, r := range retained {
+				if g.pubTopic[r] != g.pubTopic[b] {
+					others = append(others, g.pubTopic[r])
+				}
+			}
+			if len(others) > 0 {
+				op.Kw = append(op.Kw, KV{pick(t, []string{"from_publication", "after_publication", "before_publication", "until_publication"}, "xk"), VRef(fmt.Sprintf("pub:%d", b))},
+					KV{"topic", VStr(pick(t, others, "xtopic"))})
+			}
 		}
 		if pct(t, 4, "hostile") {
 			op.Kw = append(op.Kw, pick(t, []KV{{"limit", VI64(0)}, {"limit", VStr("3")}, {"reverse", VStr("yes")}, {"from_time", VStr("yesterday")}, {"from_publication", VStr("x")}, {"limit", VF64(2)}}, "hk"))
